@@ -3,7 +3,9 @@
 (* C61 generator / model check.  Explores every history of <= MaxSteps     *)
 (* public calls (step / step_and_cost / step_and_cost with grad_fn / reset)*)
 (* from the alphabet Calls for every configuration, emits each maximal     *)
-(* history with the values the documented rules give (REPLAY), and checks  *)
+(* history with the values the documented rules give (REPLAY; compact form *)
+(* <<call id, x, cost, acc, sm, t, cost at the gradient point>> per call,  *)
+(* configurations and calls carry an `id`), and checks                     *)
 (* on the model the closed forms of the accumulator recurrences:           *)
 (*   momentum: a(T) = sum_k m^(T-k) eta g_k      adagrad: a(T) = sum g_k^2 *)
 (*   rmsprop:  a(T) = sum_k gamma^(T-k) (1-gamma) g_k^2                    *)
@@ -22,20 +24,23 @@ vars == <<c, st, hist, gh, uh>>
 Init == /\ c \in Configs /\ st = Init0(c) /\ hist = <<>> /\ gh = <<>> /\ uh = <<>>
 
 Outcome(call) == IF Applicable(c, call) /\ Small(c, st) THEN Do(c, st, call) ELSE Fail(c, st, "skip")
-CanDo(call) == Outcome(call).ok = "ok"
 Next == /\ Len(hist) < MaxSteps
         /\ \E call \in Calls : \E r \in {Outcome(call)} :
              /\ r.ok = "ok"
              /\ st' = r.st
              /\ gh' = IF call.k = "reset" THEN <<>> ELSE Append(gh, r.g)
              /\ uh' = IF call.k = "reset" THEN <<>> ELSE Append(uh, r.u)
-             /\ hist' = Append(hist, [call |-> call, x |-> r.st.x, cost |-> r.cost, acc |-> r.st.acc, sm |-> r.st.sm,
-                                      t |-> r.st.t, g |-> r.g, shc |-> r.shc])
+             /\ hist' = Append(hist, [call |-> call, k |-> call.id, x |-> XOut(r.st.x), cost |-> AlgOut(r.cost),
+                                      acc |-> IF c.kind \in {"gd", "qng", "momentum_qng"} THEN <<>> ELSE r.st.acc,
+                                      sm |-> IF c.kind = "adam" THEN r.st.sm ELSE <<>>, t |-> r.st.t, shc |-> r.shc])
              /\ UNCHANGED c
 
-Maximal == Len(hist) = MaxSteps \/ ~(\E call \in Calls : CanDo(call))
+\* a history ends at MaxSteps or where the range guard stops it (the alphabet always contains a linear objective with
+\* non-zero coefficients, which every state admits)
+Maximal == Len(hist) = MaxSteps \/ ~Small(c, st)
 Emit == IF Maximal /\ Len(hist) > 0
-        THEN PrintT(ToJson([cfg |-> c, hist |-> hist]))
+        THEN PrintT(ToJson([c |-> c.id, h |-> [j \in 1..Len(hist) |->
+                              <<hist[j].k, hist[j].x, hist[j].cost, hist[j].acc, hist[j].sm, hist[j].t, hist[j].shc>>]]))
         ELSE TRUE
 
 (* ------------------------------------------------------------ invariants of the model *)
